@@ -139,6 +139,18 @@ def _cando_worker(payload):
                     allowed = bool(await authn.can_do(tok, action))
                     lines.append({"a": "CanDo", "roles": [] if roles is None else [set(roles)], "action": action, "cfg": set(cfg),
                                   "allowed": allowed})
+        # partial configurations: an action the configuration does not name keeps its default (the anonymous role), it does
+        # not become free for all
+        for cfg in ("w", "r", "rw", ""):
+            for named in ("save", "query", None):
+                authn = auth.Authenticator(RolesStub(), {"enabled": True, "actions": ({named: cfg} if named else {})})
+                authn.log = _Quiet()
+                for roles in [None] + subsets:
+                    for action in ("save", "query"):
+                        tok = None if roles is None else {"pubkey": "x", "roles": set(roles)}
+                        allowed = bool(await authn.can_do(tok, action))
+                        lines.append({"a": "CanDo", "roles": [] if roles is None else [set(roles)], "action": action,
+                                      "cfg": set(cfg) if action == named else {"a"}, "allowed": allowed})
         return [lines]
 
     return asyncio.run(main())
